@@ -18,6 +18,25 @@ STR_METHODS_INT = {"find", "rfind", "count", "index", "rindex"}
 STR_METHODS_BOOL = {"startswith", "endswith", "isdigit", "isalpha"}
 
 
+SCALAR_FUNCS = {"float", "int", "str", "len", "abs", "round", "sum", "min", "max", "bool"}
+
+
+def _scalar_by_construction(v) -> bool:
+    if v is None:
+        return False
+    if isinstance(v, ast.Constant):
+        return True
+    if isinstance(v, (ast.BinOp, ast.UnaryOp, ast.Compare, ast.JoinedStr)):
+        return True
+    if isinstance(v, ast.Call):
+        f = v.func
+        if isinstance(f, ast.Name) and f.id in SCALAR_FUNCS:
+            return True
+        if isinstance(f, ast.Attribute) and (f.attr in ("sum", "strip", "item") or (isinstance(f.value, ast.Name) and f.value.id in ("np", "numpy", "math"))):
+            return True
+    return False
+
+
 class Engine:
     def __init__(self, root: str):
         self.prog = Program(root)
@@ -30,8 +49,54 @@ class Engine:
         self._infer_cache: Dict[Tuple[int, str], FrozenSet] = {}
         self._resolve_cache: Dict[Tuple[int, str], List] = {}
         self._appends: Dict[str, Dict[str, List[ast.Call]]] = {}
+        self._install_child_oracle()
 
     # ------------------------------------------------------------------ flows
+    def _install_child_oracle(self):
+        from . import template
+
+        notation = {c.name for c in self.prog.subclasses("BigSMILESbase", strict=False)} if "BigSMILESbase" in self.prog.classes else set()
+
+        def oracle(fi, e):
+            if isinstance(e, ast.Name) and e.id == "self":
+                return True
+            ts = self.infer(e, fi)
+            if any(t[0] == "inst" and t[1] in notation for t in ts):
+                return True
+            if ts and not any(t[0] in ("unknown",) for t in ts):
+                return False
+            # `self.attr` all of whose stores in the class are numbers / text by construction
+            if isinstance(e, ast.Attribute) and isinstance(e.value, ast.Name) and e.value.id == "self":
+                ci = fi.enclosing_class()
+                vals = []
+                for c in ([ci] + [self.prog.classes[b.split(".")[-1]] for b in (ci.base_names if ci else []) if b.split(".")[-1] in self.prog.classes]) if ci else []:
+                    for fs in c.methods.values():
+                        for f in fs:
+                            for n in ast.walk(f.node):
+                                if isinstance(n, (ast.Assign, ast.AugAssign, ast.AnnAssign)):
+                                    tg = n.targets if isinstance(n, ast.Assign) else [n.target]
+                                    if any(isinstance(t, ast.Attribute) and t.attr == e.attr and isinstance(t.value, ast.Name) and t.value.id == "self" for t in tg):
+                                        vals.append(n.value)
+                if vals and all(_scalar_by_construction(v) for v in vals):
+                    return False
+                # ... or that the class itself compares with a number / uses in arithmetic
+                if ci is not None:
+                    for fs in ci.methods.values():
+                        for f in fs:
+                            for n in ast.walk(f.node):
+                                ops = []
+                                if isinstance(n, ast.Compare):
+                                    ops = [n.left] + list(n.comparators)
+                                elif isinstance(n, ast.BinOp) and isinstance(n.op, (ast.Add, ast.Sub, ast.Mult, ast.Div)):
+                                    ops = [n.left, n.right]
+                                mine = [o for o in ops if isinstance(o, ast.Attribute) and o.attr == e.attr and isinstance(o.value, ast.Name) and o.value.id == "self"]
+                                nums = [o for o in ops if isinstance(o, ast.Constant) and isinstance(o.value, (int, float)) and not isinstance(o.value, bool)]
+                                if mine and nums:
+                                    return False
+            return None
+
+        template.CHILD_ORACLE = oracle
+
     def flow(self, fi: FuncInfo) -> Flow:
         f = self._flows.get(fi.qualname)
         if f is None:
